@@ -458,6 +458,13 @@ def mixed_case(rec, kid, sub, shape):
                         out = subkey.decrypt(pgpy.PGPMessage.from_blob(eblob))
                         if bytes(out.message) != b'decrypt me':
                             rec.finding('foreign', 'does-not-work-unlocked/' + shape, case, 'decrypt returned something else')
+                        # and through the key object itself, which has to find the addressed subkey whatever the state of the primary is
+                        try:
+                            out2 = key.decrypt(pgpy.PGPMessage.from_blob(eblob))
+                            if bytes(out2.message) != b'decrypt me':
+                                rec.finding('foreign', 'does-not-work-unlocked/' + shape, case, 'key.decrypt returned something else')
+                        except Exception as e:   # noqa
+                            rec.finding('foreign', 'key-decrypt-does-not-reach-the-subkey/' + shape, case, repr(e))
                     except Exception as e:   # noqa
                         rec.finding('foreign', 'does-not-work-unlocked/' + shape, case, repr(e))
     except Exception as e:   # noqa
